@@ -49,6 +49,56 @@ REAL_QUICK = [
 # canonical observations
 
 
+class BudgetExceeded(BaseException):
+	"""A real-code call ran longer than its per-case budget (BaseException: `except Exception` in the code under test and in
+	the handlers of the harness cannot swallow it)."""
+
+
+class budget:
+	"""Per-case wall budget for calls into the real code (SIGALRM, main thread only; not nested)."""
+
+	def __init__(self, seconds: float) -> None:
+		self.seconds = seconds
+
+	def __enter__(self) -> 'budget':
+		import signal
+		import threading
+		self.active = threading.current_thread() is threading.main_thread() and hasattr(signal, 'setitimer')
+		if self.active:
+			def on_alarm(signum: int, frame: Any) -> None:
+				raise BudgetExceeded(f'budget of {self.seconds}s exceeded')
+			self.old = signal.signal(signal.SIGALRM, on_alarm)
+			signal.setitimer(signal.ITIMER_REAL, self.seconds, 1.0)  # repeats: an alarm swallowed inside a GC / weakref callback is not the last
+		return self
+
+	def __exit__(self, *a: Any) -> None:
+		import signal
+		if self.active:
+			signal.setitimer(signal.ITIMER_REAL, 0)
+			signal.signal(signal.SIGALRM, self.old)
+
+
+CASE_BUDGET = float(os.environ.get('VERIF_C09_CASE_BUDGET', '30'))      # one synthetic case / one root (typical: milliseconds)
+MODULE_BUDGET = float(os.environ.get('VERIF_C09_MODULE_BUDGET', '180'))  # one whole real module incl. export (typical: < 3 s)
+
+
+class Deadline:
+	"""Total wall deadline of one stream / search: generation stops, what was produced is still checked."""
+
+	def __init__(self, ctx: Ctx, quick: float, thorough: float) -> None:
+		self.end = time.time() + (thorough if ctx.thorough else quick)
+		self.cut = 0
+
+	def over(self) -> bool:
+		if time.time() > self.end:
+			self.cut += 1
+			return True
+		return False
+
+	def note(self) -> str:
+		return f' [deadline reached: {self.cut} case(s) not generated]' if self.cut else ''
+
+
 def canon_exc(e: BaseException) -> str:
 	"""exc_enum, with the two `Errors.Logic` sites of procedure.py told apart by their message."""
 	from rogw.tranp.errors import Errors
@@ -223,6 +273,17 @@ def make_handler(beh: str, ids: Ids, proc: Any, target_of: dict[int, Any]) -> An
 			raise {'TypeError': TypeError, 'ValueError': ValueError, 'AssertionError': AssertionError, 'KeyError': KeyError,
 				'IndexError': IndexError, 'RecursionError': RecursionError}[arg]('boom')
 		return raiser
+	if kind in ('chain', 'chain0', 'chain2'):
+		from collections.abc import Callable
+
+		def chained(node: Any, next: Callable[[], str], **kw: Any) -> str:  # noqa: A002 - Middleware looks for the name `next`
+			out = sig_of(ids, node, kw) + '^'
+			if kind == 'chain':
+				out += next()
+			elif kind == 'chain2':
+				out += next() + '^' + next()
+			return out
+		return chained
 	if kind == 'nest':
 		target = target_of[int(arg)]
 		return lambda node, **kw: sig_of(ids, node, kw) + '+<' + proc.exec(target) + '>'
@@ -507,7 +568,7 @@ def run_history_case(rng: random.Random, spec: dict[str, Any]) -> tuple[dict[str
 	real = ['ok'] * len(lines)
 	proc: Any = Procedure()
 	actions = ['on_fallback', 'on_fallback', 'on_unused', *[f'on_{_classification(c)}' for c in classes]]
-	behs = ['sig', 'sig', 'id', 'strict0', 'raise:' + rng.choice(RAISES), 'sig', 'id', 'raise:' + rng.choice(RAISES)]
+	behs = ['sig', 'sig', 'id', 'strict0', 'raise:' + rng.choice(RAISES), 'sig', 'chain', 'chain', 'chain0', 'chain2', 'raise:' + rng.choice(RAISES)]
 	callbacks = [make_handler(b, ids, proc, {}) for b in behs]
 	outcomes: Counter[str] = Counter()
 	registered: list[tuple[str, int]] = []
@@ -558,13 +619,17 @@ def run_history_case(rng: random.Random, spec: dict[str, Any]) -> tuple[dict[str
 def stream_history(ctx: Ctx) -> Stream:
 	rng = ctx.sub_rng('proc-history')
 	cases = []
+	dl = Deadline(ctx, 40, 600)
 	for i in range(ctx.scale(150, 2500)):
+		if dl.over():
+			continue
 		try:
-			cases.append(run_history_case(rng, gen_synth_spec(rng, i % 3 == 0)))
-		except Exception as e:  # noqa: BLE001
+			with budget(CASE_BUDGET):
+				cases.append(run_history_case(rng, gen_synth_spec(rng, i % 3 == 0)))
+		except (Exception, BudgetExceeded) as e:  # noqa: BLE001
 			cases.append(({'calls': 0, 'outcomes': {}}, ['reset'], ['real code raised ' + canon_exc(e)]))
 	st = common.correspond('proc-history', cases, 'proc', classify=lambda d: '+'.join(sorted(k.split(':')[0] for k in d['outcomes']))[:80])
-	st.note = 'one real Procedure over random histories of on / off (also unknown action / callback: ValueError) / clear_handler / exec on well- and ill-formed synthetic trees (failing execs leave frames), vs Model/ProcedureHistory.step'
+	st.note = dl.note() + 'one real Procedure over random histories of on / off (also unknown action / callback: ValueError) / clear_handler / exec on well- and ill-formed synthetic trees (failing execs leave frames), vs Model/ProcedureHistory.step'
 	return st
 
 
@@ -591,9 +656,16 @@ def real_files(ctx: Ctx, rng: random.Random) -> list[str]:
 	return files[:ctx.scale(5, len(files))] + pool[:ctx.scale(3, 90)]
 
 
+PARSE_SKIPPED: Counter[str] = Counter()
+
+
 def load_entrypoint(app: Any, src: str) -> Any | None:
 	try:
-		return app.entrypoint(src)
+		with budget(MODULE_BUDGET):
+			return app.entrypoint(src)
+	except BudgetExceeded:
+		PARSE_SKIPPED['parse exceeded its budget (skipped)'] += 1
+		return None
 	except Exception:  # noqa: BLE001 - outside tranp's grammar: not a tree to process
 		return None
 
@@ -820,8 +892,17 @@ def classify_synth(d: dict[str, Any]) -> str:
 	return f"{'wf' if d['wf'] else 'non-wf'}{'/nested' if d['nested'] else ''}:{oc[:60]}"
 
 
+def guarded_synth_case(spec: dict[str, Any]) -> tuple[dict[str, Any], list[str], list[str]]:
+	try:
+		with budget(CASE_BUDGET):
+			return run_synth_case(spec)
+	except (Exception, BudgetExceeded) as e:  # noqa: BLE001 - a case that raises or does not come back is a disagreement, never a hang / crash
+		return ({'kind': spec.get('kind', 'synth'), 'nodes': len(spec.get('nodes', [])), 'wf': False, 'violations': {}, 'outcomes': {'case-raised': 1}, 'nested': False},
+			['reset'], ['real code raised ' + canon_exc(e)])
+
+
 def stream_corpus(ctx: Ctx) -> Stream:
-	cases = [run_synth_case(spec) for spec in load_corpus()]
+	cases = [guarded_synth_case(spec) for spec in load_corpus()]
 	st = common.correspond('proc-corpus', cases, 'proc', classify=lambda d: d['kind'])
 	st.note = 'committed witnesses: one per WFNode clause (as in wf_necessary_*), failing nested run (stale frame) and caught nested failure (failed_nested_counterexample)'
 	return st
@@ -830,7 +911,8 @@ def stream_corpus(ctx: Ctx) -> Stream:
 def stream_synth(ctx: Ctx, dirty: bool) -> Stream:
 	name = 'proc-malformed' if dirty else 'proc-synth'
 	rng = ctx.sub_rng(name)
-	cases = [run_synth_case(gen_synth_spec(rng, dirty)) for _ in range(ctx.scale(400, 4000))]
+	dl = Deadline(ctx, 60, 900)
+	cases = [guarded_synth_case(gen_synth_spec(rng, dirty)) for _ in range(ctx.scale(400, 4000)) if not dl.over()]
 	st = common.correspond(name, cases, 'proc', classify=classify_synth)
 	viol: Counter[str] = Counter()
 	for d, _, _ in cases:
@@ -852,7 +934,12 @@ def stream_real(ctx: Ctx) -> tuple[Stream, list[dict[str, Any]]]:
 		ep = load_entrypoint(app, src)
 		if ep is None:
 			continue
-		c = run_real_case(rng, os.path.relpath(f, common.REPO), ep, 'real' if is_curated(f) else 'real-uncurated')
+		kind_ = 'real' if is_curated(f) else 'real-uncurated'
+		try:
+			with budget(MODULE_BUDGET):
+				c = run_real_case(rng, os.path.relpath(f, common.REPO), ep, kind_)
+		except BudgetExceeded as e:
+			c = ({'kind': kind_, 'file': os.path.relpath(f, common.REPO), 'export_error': canon_exc(e), 'nodes': 0, 'classes': []}, ['reset'], ['real code raised ' + canon_exc(e)])
 		if c is None:
 			continue
 		descs.append(c[0])
@@ -871,13 +958,20 @@ def stream_generated(ctx: Ctx) -> tuple[Stream, list[dict[str, Any]]]:
 	cases = []
 	descs = []
 	rejected = 0
+	dl = Deadline(ctx, 60, 900)
 	for i in range(ctx.scale(100, 1200)):
 		src = gen.program()
 		ep = load_entrypoint(app, src)
 		if ep is None:
 			rejected += 1
 			continue
-		c = run_real_case(rng, f'generated#{i}', ep, 'generated')
+		if dl.over():
+			continue
+		try:
+			with budget(CASE_BUDGET):
+				c = run_real_case(rng, f'generated#{i}', ep, 'generated')
+		except BudgetExceeded as e:
+			c = ({'kind': 'generated', 'file': f'generated#{i}', 'export_error': canon_exc(e), 'nodes': 0, 'classes': []}, ['reset'], ['real code raised ' + canon_exc(e)])
 		if c is None:
 			continue
 		c[0]['source'] = src
@@ -1125,8 +1219,9 @@ def class_table_findings() -> tuple[list[tuple[str, str]], dict[str, int]]:
 
 def safe_wf(root: Any) -> list[tuple[str, str]]:
 	try:
-		return [(type(n).__name__, c) for n in [*root.procedural(), root] for c in wf_clauses(n)]
-	except Exception as e:  # noqa: BLE001
+		with budget(MODULE_BUDGET):
+			return [(type(n).__name__, c) for n in [*root.procedural(), root] for c in wf_clauses(n)]
+	except (Exception, BudgetExceeded) as e:  # noqa: BLE001
 		return [(type(root).__name__, f'wf-evaluation-raised:{canon_exc(e)}')]
 
 
@@ -1175,6 +1270,30 @@ def childless_roots(order: list[Any], limit: int) -> list[Any]:
 	return out
 
 
+def _check_root(rng: random.Random, run: 'IdentityRun', roots: list[Any], root: Any, n: int, mode: int, visited: int, twice: int,
+		bad: tuple[str, str] | None, hist: Counter[str]) -> tuple[str, str] | None:
+	if bad is None:
+		bad = alias_check(root)
+		hist['aliasing: procedural() hands out a fresh list'] += 1
+	if bad is None and mode == 1:
+		bad = run.fail_once(root, rng.randrange(visited)) or run.fail_once(root, visited - 1)
+		hist['history: run after failed runs on the same Procedure'] += 1
+	if bad is None and mode == 2 and len(roots) > 1:
+		others = [r for r in roots if r is not root] or roots
+		nest = {rng.randrange(visited): rng.choice(others) for _ in range(rng.randint(1, 3))}
+		bad = run.check(root, nest)
+		if bad is None and run.nested_bad:
+			bad = run.nested_bad[0]
+		run.nested_bad = []
+		hist['nested: runs started from inside handler calls'] += 1
+	if bad is None:
+		bad = run.check(root)
+	if bad is None and (mode == 3 or n < twice):
+		bad = run.check(root)
+		hist['history: repeated run on the same Procedure'] += 1
+	return bad
+
+
 def check_tree_set(rng: random.Random, name: str, roots: list[Any], res: SearchResult, hist: Counter[str], notes: list[str],
 		source: str | None, must_hold: bool, twice: int = 0) -> None:
 	"""The law on a set of trees sharing ONE Procedure: plain run, repeated run, run after failed runs (stale frames),
@@ -1186,7 +1305,13 @@ def check_tree_set(rng: random.Random, name: str, roots: list[Any], res: SearchR
 		mode = n % 4
 		bad = None
 		try:
-			visited = len(spec_walk(root)[0])
+			with budget(MODULE_BUDGET):
+				visited = len(spec_walk(root)[0])
+		except BudgetExceeded as e:
+			if must_hold:
+				res.findings.append(Finding(key='budget-exceeded', what=f'the property walk of {type(root).__name__} did not come back: {e} [{name}]', replay={'source_name': name, 'source': source}))
+			hist['root skipped: budget exceeded'] += 1
+			continue
 		except Exception as e:  # noqa: BLE001
 			if must_hold:
 				bad = (f'getter-raises:{canon_exc(e)}', f'a property getter raised {canon_exc(e)}')
@@ -1195,25 +1320,14 @@ def check_tree_set(rng: random.Random, name: str, roots: list[Any], res: SearchR
 				continue
 			visited = 0
 		try:
-			if bad is None:
-				bad = alias_check(root)
-				hist['aliasing: procedural() hands out a fresh list'] += 1
-			if bad is None and mode == 1:
-				bad = run.fail_once(root, rng.randrange(visited)) or run.fail_once(root, visited - 1)
-				hist['history: run after failed runs on the same Procedure'] += 1
-			if bad is None and mode == 2 and len(roots) > 1:
-				others = [r for r in roots if r is not root] or roots
-				nest = {rng.randrange(visited): rng.choice(others) for _ in range(rng.randint(1, 3))}
-				bad = run.check(root, nest)
-				if bad is None and run.nested_bad:
-					bad = run.nested_bad[0]
-				run.nested_bad = []
-				hist['nested: runs started from inside handler calls'] += 1
-			if bad is None:
-				bad = run.check(root)
-			if bad is None and (mode == 3 or n < twice):
-				bad = run.check(root)
-				hist['history: repeated run on the same Procedure'] += 1
+			with budget(MODULE_BUDGET if n == 0 or not must_hold else CASE_BUDGET * 4):
+				bad = _check_root(rng, run, roots, root, n, mode, visited, twice, bad, hist)
+		except BudgetExceeded as e:
+			if must_hold:
+				bad = ('budget-exceeded', f'checking {type(root).__name__} did not come back: {e}')
+			else:
+				hist['root skipped: budget exceeded'] += 1
+			run = IdentityRun()
 		except Exception as e:  # noqa: BLE001 - whatever the real code raised outside exec is a finding, never a harness crash
 			bad = (f'real-code-raises:{canon_exc(e)}', f'{canon_exc(e)} escaped from the real code while checking {type(root).__name__}: {tb_tail(e)}')
 			run = IdentityRun()
@@ -1268,7 +1382,10 @@ def search_identity(ctx: Ctx, real_descs: list[dict[str, Any]], gen_descs: list[
 			sources.append((d['file'], d['source'], False))
 	for i, b in enumerate(['', '# only a comment', 'a = []', 'a = {}\nb = ()\nc = [[], {}]', 'def f() -> None:\n\tx = []\n\treturn', 'class A:\n\tv: list[int] = []']):
 		sources.insert(i, (f'boundary#{i}', b, True))
+	dl = Deadline(ctx, 90, 1500)
 	for name, src, must_hold in sources:
+		if dl.over():
+			continue
 		ep = load_entrypoint(app, src)
 		if ep is None:
 			hist['outside grammar'] += 1
@@ -1276,13 +1393,14 @@ def search_identity(ctx: Ctx, real_descs: list[dict[str, Any]], gen_descs: list[
 		roots = [ep]
 		nchildless = 0
 		try:
-			order, _ = spec_walk(ep)
+			with budget(MODULE_BUDGET):
+				order, _ = spec_walk(ep)
 			inner = [n for n in order if n.can_expand and n.prop_keys() and n is not ep]
 			# boundary roots first (each run twice), then the module (an exec of the whole after execs of parts), then inner roots
 			boundary = [n for n in childless_roots(order, 3) if n is not ep]
 			nchildless = len(boundary)
 			roots = [*boundary, ep, *rng.sample(inner, min(len(inner), 5))]
-		except Exception:  # noqa: BLE001 - reported by check_tree_set
+		except (Exception, BudgetExceeded):  # noqa: BLE001 - reported by check_tree_set
 			order = []
 		seen.add(name)
 		hist['boundary roots: non-terminal nodes with nothing to expand, run twice'] += nchildless
@@ -1292,6 +1410,8 @@ def search_identity(ctx: Ctx, real_descs: list[dict[str, Any]], gen_descs: list[
 	# well-formed synthetic shapes (several list properties, empty lists, shared node objects, deep chains)
 	srng = ctx.sub_rng('identity-synth')
 	for i in range(ctx.scale(150, 2500)):
+		if dl.over():
+			continue
 		spec = gen_synth_spec(srng, False)
 		try:
 			nodes, _ = build_synth(spec)
@@ -1323,7 +1443,8 @@ def search_identity(ctx: Ctx, real_descs: list[dict[str, Any]], gen_descs: list[
 		ctx.notes.append(f'WF clause 2, nodes whose properties yield nothing — {cat}: {sorted(clss)}')
 	res.distinct = len(seen)
 	res.histogram = dict(hist)
-	res.note = f'class table: {json.dumps(stats)}'
+	hist.update(PARSE_SKIPPED)
+	res.note = f'class table: {json.dumps(stats)}' + dl.note()
 	return res
 
 
@@ -1440,14 +1561,18 @@ def search_semantic(ctx: Ctx) -> SearchResult:
 		with open(f, encoding='utf-8') as fh:
 			sources.append((os.path.relpath(f, common.REPO), fh.read()))
 	seen: set[str] = set()
+	dl = Deadline(ctx, 90, 1500)
 	for name, src in sources:
+		if dl.over():
+			continue
 		generated = name.startswith('generic#')
 		t0 = time.time()
 		try:
-			app = common.MemApp(ctx.tmpdir())
-			ep = app.module(src).entrypoint
-			refs = app.resolve(Reflections)
-		except Exception as e:  # noqa: BLE001
+			with budget(MODULE_BUDGET):
+				app = common.MemApp(ctx.tmpdir())
+				ep = app.module(src).entrypoint
+				refs = app.resolve(Reflections)
+		except (Exception, BudgetExceeded) as e:  # noqa: BLE001
 			hist[f'module load raised {canon_exc(e)}'] += 1
 			if generated:
 				# these programs are valid tranp input: loading them must succeed
@@ -1456,17 +1581,22 @@ def search_semantic(ctx: Ctx) -> SearchResult:
 		seen.add(name)
 		run = SemanticRun(refs, hist)
 		try:
-			order, _ = spec_walk(ep)
-		except Exception as e:  # noqa: BLE001
+			with budget(MODULE_BUDGET):
+				order, _ = spec_walk(ep)
+		except (Exception, BudgetExceeded) as e:  # noqa: BLE001
 			res.findings.append(Finding(key=f'getter-raises:{canon_exc(e)}', what=f'a property getter raised {canon_exc(e)} [{name}]', replay={'source_name': name, 'source': src if generated else None}))
 			continue
 		roots = [ep] + [n for n in order if type(n).__name__ in ('Class', 'Method', 'Constructor', 'Function') and n is not ep][:ctx.scale(6 if generated else 3, 40)]
 		for n, root in enumerate(roots):
 			res.cases += 1
 			try:
-				bad = run.check(root)
-				if bad is None and n == 0 and (generated or ctx.thorough):
-					bad = run.check(root)  # once more on the same Procedure, the services now warm
+				with budget(MODULE_BUDGET):
+					bad = run.check(root)
+					if bad is None and n == 0 and (generated or ctx.thorough):
+						bad = run.check(root)  # once more on the same Procedure, the services now warm
+			except BudgetExceeded as e:
+				bad = ('budget-exceeded', f'checking {type(root).__name__} with handlers calling Reflections.type_of did not come back: {e}')
+				run = SemanticRun(refs, hist)
 			except Exception as e:  # noqa: BLE001
 				bad = (f'real-code-raises:{canon_exc(e)}', f'{canon_exc(e)} escaped from the real code while checking {type(root).__name__}: {tb_tail(e)}')
 			hist['trees ok' if not bad else 'trees violating'] += 1
@@ -1479,7 +1609,7 @@ def search_semantic(ctx: Ctx) -> SearchResult:
 			res.samples.append({'source': name, 'visited': len(order), 'roots': len(roots), 'seconds': round(time.time() - t0, 2)})
 	res.distinct = len(seen)
 	res.histogram = dict(hist)
-	res.note = 'handlers = identity + Reflections.type_of on every node (Errors.* swallowed); law unchanged: event[k] is exactly what getattr(n, k) yields at flattening time and at event time, one final result, frames undisturbed; property walk repeated after the run'
+	res.note = dl.note() + 'handlers = identity + Reflections.type_of on every node (Errors.* swallowed); law unchanged: event[k] is exactly what getattr(n, k) yields at flattening time and at event time, one final result, frames undisturbed; property walk repeated after the run'
 	return res
 
 
@@ -1710,7 +1840,10 @@ def run_worker(job: dict[str, Any]) -> dict[str, Any]:
 	env = dict(os.environ)
 	env['PYTHONPATH'] = os.pathsep.join([os.path.join(common.VERIF, 'compat'), common.REPO, common.VERIF])
 	env['PYTHONDONTWRITEBYTECODE'] = '1'
-	rc, out, err = common.run_cmd([sys.executable, '-c', 'from harness import c09; c09.worker_main()'], common.REPO, 600, input_text=json.dumps(job), env=env)
+	try:
+		rc, out, err = common.run_cmd([sys.executable, '-c', 'from harness import c09; c09.worker_main()'], common.REPO, 600, input_text=json.dumps(job), env=env)
+	except common.InfraError as e:  # timeout: the fresh process did not come back
+		rc, out, err = 1, '', str(e)
 	try:
 		if rc != 0:
 			raise ValueError(f'exit code {rc}')
@@ -1872,36 +2005,43 @@ def search_reparse(ctx: Ctx) -> SearchResult:
 		load = (lambda s: app.entrypoint(s)) if wiring == 'entrypoints' else (lambda s: app.module(s).entrypoint)
 		run = IdentityRun()
 		since_reset: list[dict[str, Any]] = []  # every step this Procedure object has seen (the histories share it)
+		dl = Deadline(ctx, 45, 900)
 		for name, versions, mode in cases:
+			if dl.over():
+				continue
 			if wiring == 'modules' and not name.startswith('edit#') and not ctx.thorough:
 				continue
 			paths: list[str] = []
 			for v, src in enumerate(versions):
 				try:
-					ep = load(src)
-				except Exception as e:  # noqa: BLE001 - outside the grammar
+					with budget(MODULE_BUDGET):
+						ep = load(src)
+				except (Exception, BudgetExceeded) as e:  # noqa: BLE001 - outside the grammar
 					hist[f'parse raised {canon_exc(e)}'] += 1
 					break
 				bad = None
 				root = ep
 				try:
-					order, _ = spec_walk(ep)
-					if v == 0:
-						inner = [n for n in order if n.can_expand and declared_props(type(n)) and n is not ep]
-						paths = [n.full_path for n in rng.sample(inner, min(len(inner), 3))]
-					nodes_q = tree_of(ep)
-					roots = [nodes_q.by(p) for p in paths if nodes_q.exists(p)]
-					roots = [r for r in roots if r.can_expand] + [ep]
-					if v % 2:
-						roots.reverse()
-					for j, root in enumerate(roots):
-						res.cases += 1
-						hist[f'{wiring}: version {v + 1} ({mode if v else "first parse"})'] += 1
-						since_reset.append({'module': name, 'version': v + 1, 'parse': j == 0, 'root': root.full_path,
-							'source': src if name.startswith('edit#') else None})
-						bad = run.check(root)
-						if bad:
-							break
+					with budget(MODULE_BUDGET):
+						order, _ = spec_walk(ep)
+						if v == 0:
+							inner = [n for n in order if n.can_expand and declared_props(type(n)) and n is not ep]
+							paths = [n.full_path for n in rng.sample(inner, min(len(inner), 3))]
+						nodes_q = tree_of(ep)
+						roots = [nodes_q.by(p) for p in paths if nodes_q.exists(p)]
+						roots = [r for r in roots if r.can_expand] + [ep]
+						if v % 2:
+							roots.reverse()
+						for j, root in enumerate(roots):
+							res.cases += 1
+							hist[f'{wiring}: version {v + 1} ({mode if v else "first parse"})'] += 1
+							since_reset.append({'module': name, 'version': v + 1, 'parse': j == 0, 'root': root.full_path,
+								'source': src if name.startswith('edit#') else None})
+							bad = run.check(root)
+							if bad:
+								break
+				except BudgetExceeded as e:
+					bad = ('budget-exceeded', f'a re-parse history step did not come back: {e}')
 				except Exception as e:  # noqa: BLE001
 					bad = (f'real-code-raises:{canon_exc(e)}', f'{canon_exc(e)} escaped from the real code: {tb_tail(e)}')
 				if bad:
@@ -1921,7 +2061,7 @@ def search_reparse(ctx: Ctx) -> SearchResult:
 				res.samples.append({'history': name, 'wiring': wiring, 'edit': mode, 'versions': versions})
 	res.distinct = len(seen)
 	res.histogram = dict(hist)
-	res.note = 'the Procedure object is shared by all histories of a wiring (reset after a finding); visited nodes must be the objects of the tree being processed (query object identity and token text), not merely equal by path'
+	res.note = dl.note() + 'the Procedure object is shared by all histories of a wiring (reset after a finding); visited nodes must be the objects of the tree being processed (query object identity and token text), not merely equal by path'
 	return res
 
 
@@ -1979,11 +2119,41 @@ STATEMENTS = {
 	'exec_history_independent': 'after ANY history of calls on one instance (on / off incl. failing ones / clear_handler / exec on arbitrary trees, succeeding or raising) exec answers exactly like a fresh instance that has seen only the registrations',
 	'exec_history_reference': '... and on a WF tree that answer is the reference result for the registered handlers',
 	'instance_state_is_modelled': 'GENERATED from procedure.py on every run: the attributes of a Procedure instance and the methods writing them are exactly the model state (stacks: __init__/exec/__result/__run_action/__stack_pop; emitter: __init__/on/off/clear_handler; __verbose constructor only), no class-level state, list lengths re-read from the node at event time, root flattened on every exec; 37 modelled functions (procedure.py, node.py, middleware.py, embed.py) pinned to their audited text — a new attribute / another source / an edited modelled function is a TranslateError (broken tie)',
+	'shipped_names_distinct / shipped_prop_keys_history_independent': 'GENERATED table of the 126 node classes (definition/*.py read by ast on every run: names, metadata paths, C3 MROs, expandable getters): no class shares its name with a base, hence prop_keys() of the shipped classes is history-independent outright (decide +kernel)',
+	'shipped_keys_nodup / shipped_terminals_declare_nothing / shipped_wf_reduces': 'no shipped class repeats an expandable key, ITerminal classes declare none; so for trees of shipped classes KeyConsistent and WF clauses 1 and 3 hold by the table and WF reduces to clause 2 (under) and clause 4 (annotation = shape), the two checked on every exported tree',
+	'chain_semantics': 'Middleware chaining is in the model: the newest callback of an action runs; a plain one shadows the rest, one declaring `next` receives the rest of the chain on the same event (HProg.bind), past the end IndexError -> Errors.Fatal; runProg and denoteProg treat bind alike, so all theorems cover chained registrations',
 	'prop_keys_history_independent(_from)': 'Node.prop_keys over any class table whose MROs have pairwise distinct class names: for every order/repetition of calls each answer is the cache-free MRO computation (invariant: cache subset of the graph of the pure function)',
 	'prop_keys_fixed_key_counterexample': 'NOT prop_keys_fixed_key_statement: with the attribute name not carrying the class name (the seeded mutation) a subclass asked after its base answers with the base\'s list',
 	'prop_keys_same_name_counterexample': 'NOT prop_keys_any_names_statement: on the code as it is, a subclass sharing __name__ with a base inherits the base\'s cached answer (latent; no tranp node class does; real code agrees with the model on such synthetic tables)',
 	'under_empty_iff / under_clause_iff': '_under_expand() = C10 expandPaths resolved to nodes is empty iff the entry is quiet (no child, or only unresolvable tree entries within 3 levels); so WF clause 2 can fail only for a non-ITerminal class whose properties yield nothing on a non-quiet entry',
 }
+
+
+def node_classes_vs_import(tab: dict[str, Any]) -> list[str]:
+	"""The table the translator reads from the AST of definition/*.py against the imported classes (`__mro__`, embed metadata,
+	`ITerminal`): the Lean theorems `shipped_*` speak about the former, the running code uses the latter."""
+	from rogw.tranp.syntax.node.behavior import ITerminal
+	from rogw.tranp.syntax.node.embed import EmbedKeys, Meta
+	from rogw.tranp.syntax.node.node import Node
+	real = {c.__name__: c for c in definition_classes() if c.__module__.startswith('rogw.')}
+	gen = {r['name']: r for r in tab['rows']}
+	out = [f'class {n} only in the {"import" if n in real else "generated table"}' for n in sorted(set(real) ^ set(gen))]
+	for n, c in real.items():
+		r = gen.get(n)
+		if r is None:
+			continue
+		mro = [b.__name__ for b in c.__mro__ if b.__name__ in real and real[b.__name__] is b]
+		keys = list(Meta.dig_for_method(Node, c, EmbedKeys.Expandable, value_type=bool).keys())
+		lists = [k for k in keys if getattr(getattr(c, k).fget.__annotations__.get('return'), '__origin__', None) is list]
+		if mro != r['mro_names']:
+			out.append(f'{n}: __mro__ {mro} vs generated {r["mro_names"]}')
+		if keys != [k for k, _ in r['keys']]:
+			out.append(f'{n}: expandable {keys} vs generated {[k for k, _ in r["keys"]]}')
+		if lists != [k for k, a in r['keys'] if a]:
+			out.append(f'{n}: list-annotated {lists} vs generated {[k for k, a in r["keys"] if a]}')
+		if r['path'] != f'{c.__module__}.{c.__name__}' or issubclass(c, ITerminal) != r['terminal']:
+			out.append(f'{n}: path / ITerminal differ')
+	return out
 
 
 def guarded_stream(name: str, fn: Any) -> Any:
@@ -2015,8 +2185,12 @@ def run(ctx: Ctx) -> int:
 	translate_ok, translate_msg = True, ''
 	with ctx.timed('translate'):
 		try:
-			from translate import gen_procedure_state
+			from translate import gen_node_classes, gen_procedure_state
 			ctx.generated_tables.extend(gen_procedure_state.generate())
+			ctx.generated_tables.extend(gen_node_classes.generate())
+			mismatch = node_classes_vs_import(gen_node_classes.class_table())
+			if mismatch:
+				raise ValueError(f'generated node-class table differs from the imported classes: {mismatch[:3]}')
 		except Exception as e:  # noqa: BLE001 - TranslateError: the tie between source and model is broken
 			translate_ok, translate_msg = False, f'{type(e).__name__}: {e}'
 	proof = common.prove(ctx, PROP, leanchecker=ctx.thorough)
@@ -2064,10 +2238,10 @@ def run(ctx: Ctx) -> int:
 		},
 		assumptions=[
 			'property getters are pure between procedural() and __make_event (checked: two reads compared on every exported node)',
-			'KeyConsistent (hypothesis of wf_necessary): getattr(node, key) is a function of the key',
-			'NamesDistinctOnMro (hypothesis of prop_keys_history_independent): checked on the real class table in every fresh process',
+			'KeyConsistent (hypothesis of wf_necessary): discharged for trees of the shipped node classes by shipped_wf_reduces (generated class table); for other trees: getattr(node, key) is a function of the key',
+			'NamesDistinctOnMro: discharged for the shipped classes (shipped_names_distinct); the generated table is compared with the imported classes on every run',
 			'handlers touch the procedure only through exec (stacks are name-mangled private state)',
-			'no handler takes a `next` parameter (middleware chaining not modelled; checked by the translator over every on_* function of rogw/tranp)',
+			'a handler that declares `next` does not catch the exception of next() (HProg has no catch for it); no tranp handler declares `next` at all (counted by the translator)',
 			'Python recursion limit is not reached (model: nesting budget)',
 		],
 		trusted=['the 2.6k lines of node definitions enter as exported trees, not as model'])
